@@ -66,7 +66,7 @@ def run(tier):
         finally:
             vf.rm(dd)
     # column level: one column modified in place (type, nullability, default, generation expression), differ -> planner -> clauses
-    colcat = plancat.colmod(v, "colmod-updown", "catalog-colmod-updown")
+    colcat = plancat.colmod(v, "-updown", "catalog-colmod-updown")
     cat["plans"] += colcat["planned"]
     cat["bad"] += colcat["bad"]
     cat["column_level"] = colcat
